@@ -25,3 +25,67 @@ def c10_plan_request(valid, unit, v, r):
     if not m:
         return None
     return f"mcjavaplan {m.group(1)} {m.group(2)} {r} {v}"
+
+
+def _varint(n):
+    out = bytearray()
+    n &= 0xFFFFFFFF
+    while True:
+        b = n & 0x7F
+        n >>= 7
+        if n:
+            out.append(b | 0x80)
+        else:
+            out.append(b)
+            return bytes(out)
+
+
+def _read_varint(b, i):
+    v = shift = 0
+    while True:
+        x = b[i]
+        i += 1
+        v |= (x & 0x7F) << shift
+        shift += 7
+        if not x & 0x80:
+            return v, i
+
+
+def decode_variants(valid, rnd):
+    """C03: the same status made LONG with insignificant white space — JSON texts of 32767, 32768 and more bytes (the length
+    prefix counts bytes; a status with a favicon or a mod list easily exceeds 32 KiB): same response"""
+    import copy
+    if valid.notwf or not valid.want.startswith("OK") or rnd.random() < 0.85:
+        return []
+    c = valid.case()
+    if not c.script or c.script[0] == "X" or not c.script[0] or c.script[0][0] is None:
+        return []
+    d = c.script[0][0]
+    try:
+        plen, i = _read_varint(d, 0)
+        if d[i] != 0 or i + plen > len(d):
+            return []
+        slen, j = _read_varint(d, i + 1)
+        text = d[j:j + slen]
+        rest = d[i + plen:]
+        if len(text) != slen or j + slen != i + plen:
+            return []
+    except IndexError:
+        return []
+    out = []
+    for k, target in enumerate((32766, 32767, 32768, 32769, rnd.randrange(32770, 200000))):
+        if len(text) >= target:
+            continue
+        pad = bytes(rnd.choice(b" \n\t\r") for _ in range(target - len(text)))
+        at = rnd.choice([0, len(text)])
+        t2 = text[:at] + pad + text[at:]
+        body = b"\x00" + _varint(len(t2)) + t2
+        c2 = valid.case()
+        c2.script[0][0] = _varint(len(body)) + body + rest
+        v = copy.copy(valid)
+        v.tags = dict(valid.tags)
+        v.tags["THM"] = "0"
+        v.id = f"{valid.id}L{k}"
+        v.line = c2.line(v.id)
+        out.append(v)
+    return out
